@@ -157,9 +157,27 @@ def _run0(ck, fb):
         fc = df.calls(re.escape(FU + 'filter_healthy_instances') + '$')
         ok = any(cond_on(df, s.bb, lambda d, pol: d['k'] == 'arg' and df.local_name(d['l']) == 'filter_headlthy' and pol is True) for s in fc)
         ck.require(len(fc) == 1 and ok, 'R12c', 'default_instance_filter:healthy-only-on-request', df.where(), 'the healthy filter is not applied exactly when requested')
-        le = [st for (i, j, st) in df.stmts() if st.get('rv', {}).get('k') == 'bin' and st['rv']['op'] in ('Le', 'Lt', 'Ge', 'Gt')]
-        dv = [st for (i, j, st) in df.stmts() if st.get('rv', {}).get('k') == 'bin' and st['rv']['op'] == 'Div']
-        ck.require(len(dv) == 1 and len(le) >= 2, 'R12c', 'default_instance_filter:threshold', df.where(), 'the protection threshold test (healthy/total <= threshold) is gone')
+        # the protection threshold is decided on the list that is being answered: healthy / total with total = the length of the list the filter
+        # was handed (the enabled instances of the service) - in the function or in a same-file helper (extract-method), for both filters
+        for fn in ('default_instance_filter', 'default_service_filter'):
+            fb0 = fb.bodies.get(FU + fn)
+            if fb0 is None:
+                ck.body(FU + fn, 'R12c')
+                continue
+            reg = util.region(fb, fb0, 2)
+            divs = [(x, i, st) for x in reg for (i, j, st) in x.stmts() if st.get('rv', {}).get('k') == 'bin' and st['rv']['op'] == 'Div']
+            cmps = [st for x in reg for (i, j, st) in x.stmts() if st.get('rv', {}).get('k') == 'bin' and st['rv']['op'] in ('Le', 'Lt', 'Ge', 'Gt')]
+            ck.require(len(divs) >= 1 and len(cmps) >= 2, 'R12c', '%s:threshold' % fn, fb0.where(), 'the protection threshold test (healthy/total <= threshold) is gone')
+            for (x, i, st) in divs:
+                tl = Taint(x, call_src=lambda t: re.search(r'::len$', cfg.callee_name(t) or '') is not None)
+                tc = Taint(x, place_src=field_place_src('instance_size', 'healthy_instance_size'))
+                ok = tl.op_tainted(st['rv']['b']) and not tc.op_tainted(st['rv']['a']) and not tc.op_tainted(st['rv']['b'])
+                ck.require(ok, 'R12c', '%s:threshold-over-the-answered-list' % fn, x.where(i),
+                           'the healthy / total ratio that decides "protection threshold reached" is not computed over the list the filter was handed '
+                           '(total = its length) but over %s: the service counters include disabled instances, so the threshold is decided on another '
+                           'population than the one returned - an enabled registered address goes missing from a protected service, or an unhealthy '
+                           'instance appears in a healthy-only answer' % ('the counters of the service' if (tc.op_tainted(st['rv']['a']) or tc.op_tainted(st['rv']['b'])) else 'something else'),
+                           'healthy count / list length')
     ck.rule('R12d', 'a new registration keeps what it was registered with: on the not-found branch of Service::update_instance none of '
                     'ip, port, ephemeral, enabled, weight of the incoming instance is assigned; NamingActor::update_instance only resets '
                     'from_cluster/client_id under at_process_range && !from_grpc (from_cluster also where it equals this node\'s own id)')
